@@ -14,7 +14,11 @@ focus = ''
 if rnd:
     k = (ord(rnd[0]) - ord('a')) % len(mechs)
     m = mechs[k]
-    if rnd[0] >= 'f':
+    if rnd[0] >= 'g':
+        k = (ord(rnd[0]) - ord('a') + 4) % len(mechs)
+        m = mechs[k]
+        focus = '\n  Focus: put your change in or around this mechanism of the implementation: %s (%s). Prefer a fault whose effect shows only AFTER something has gone wrong or been cut short - a statement that raised an error part-way, an operation refused for lack of memory or because of a disk / tape / device error, a Break / STOP / END in the middle of a loop, handler or file operation, a trapped error followed by RESUME - so that the state left behind (a flag not restored, a resource not released, a half-updated table, a counter advanced although the operation failed) makes LATER, perfectly ordinary operations misbehave; or a fault that shows only under a non-default Session option that the mechanism supports (another syntax / dialect such as pcjr or tandy, another video adapter or text width, the double-precision math option, soft linefeed, another codepage, a memory size limit). The fault should stay invisible as long as every operation succeeds under the default configuration.' % (m.get('name'), m.get('where'))
+    elif rnd[0] >= 'f':
         k = (ord(rnd[0]) - ord('a') + 3) % len(mechs)
         m = mechs[k]
         focus = '\n  Focus: put your change in or around this mechanism of the implementation: %s (%s). Prefer a fault whose only symptom is a silently wrong value or a silently different state (no error message, no exception, nothing printed) on a secondary path to the same mechanism: the less common spelling of a statement or function (for example the file, printer or device form of an output statement, the form with optional arguments omitted or all given, the variant for another numeric type or for array elements instead of scalars), a memo/cache or a precomputed table with a slightly wrong key, or a value that passes through two conversions. Avoid the primary, everyday path: assume it is tested thoroughly.' % (m.get('name'), m.get('where'))
